@@ -42,7 +42,7 @@ From ASModel Require Import Base State Orderings_gen Step Run Progress Hist Inv 
 From ASModel Require Import GenDefs Gen1 Gen2 Gen EnvDefs Env4 Env AccDefs Acc1 Acc2 Acc3 Acc4 Acc5 Acc6 Acc7 Acc.
 From ASModel Require Import ProtDefs Prot1 Prot11 Prot16 Prot Typed LinDefs Lin2 Lin Safe1 Safe2 Safe7 Safe8 Safe Main RunOKEx.
 From ASModel Require Import WrpDefs WrpGen WrpEnv WrpMain WrpLin WrpEx WrpC03.
-From ASModel Require Import Stale2 Stale2P.
+From ASModel Require Import Stale2 Stale2P Stale2Inv Stale2Wr.
 
 Theorem C13_total :
   forall cf inits progs sched te e,
@@ -192,3 +192,46 @@ Proof. exact run_stale2_WF2. Qed.
 
 Print Assumptions C13_total_stale2.
 Print Assumptions C13_after_wrap_stale2.
+
+(** ** The generation WRAP together with the four weakened loads of [Stale2.step_stale2]: the
+    eighth-slot case of a stale scan is itself a step that advances the generation counter and may
+    wrap it.  [RunOKWS2] = [RunOKW] over the states of the stale run plus [stale2_ok]. *)
+Theorem C13_wrap_no_use_after_free_stale2 : forall cf inits progs sched,
+  RunOKWS2 cf inits progs sched ->
+  NoFault (run_state_stale2 cf (init_state inits progs) sched) /\
+  forall te, In te (snd (run_stale2 cf (init_state inits progs) sched)) ->
+    forall a, ~ In (EvFault (FDeadInc a)) (snd te) /\ ~ In (EvFault (FDeadDec a)) (snd te).
+Proof. exact C01_no_use_after_free_wrap_stale2. Qed.
+
+Theorem C13_wrap_accounting_stale2 : forall cf inits progs sched,
+  RunOKWS2 cf inits progs sched -> Acc (run_state_stale2 cf (init_state inits progs) sched).
+Proof. exact C02_accounting_wrap_stale2. Qed.
+
+Theorem C13_wrap_load_linearizable_stale2 :
+  forall cf inits progs sched, RunOKWS2 cf inits progs sched ->
+    forall t i cm c h pa pb xa tb xb,
+      let s0 := init_state inits progs in
+      nth_error (t_prog (thr s0 t)) (N.to_nat i) = Some cm -> is_load_of cm c h ->
+      (pa <= pb)%nat ->
+      nth_error sched pa = Some (t, xa) ->
+      t_status (thr (StS2 cf s0 sched pa) t) = Running -> t_stack (thr (StS2 cf s0 sched pa) t) = [] ->
+      t_cmdi (thr (StS2 cf s0 sched pa) t) = i ->
+      nth_error sched pb = Some (tb, xb) ->
+      t_cmdi (thr (StS2 cf s0 sched pb) t) = i -> t_cmdi (thr (StS2 cf s0 sched (S pb)) t) = i + 1 ->
+      exists v, (match cm with
+                 | CLoad _ _ => exists d, hnd (StS2 cf s0 sched (S pb)) h = HGuard v d
+                 | _ => hnd (StS2 cf s0 sched (S pb)) h = HOwned v
+                 end) /\
+        exists k, (pa + 1 <= k <= pb + 1)%nat /\ mem (sh (StS2 cf s0 sched k)) (LStore c) = v.
+Proof. exact C03_load_linearizable_wrap_stale2. Qed.
+
+(** Every run within [RunOKS2] that is short enough is within [RunOKWS2] (so the examples of
+    [Stale2InvEx.v] inhabit it). *)
+Theorem C13_wrap_stale2_scope : forall cf inits progs sched,
+  RunOKS2 cf inits progs sched -> 4 * N.of_nat (length sched) + 8 < WORD -> RunOKWS2 cf inits progs sched.
+Proof. exact RunOKS2_RunOKWS2. Qed.
+
+Print Assumptions C13_wrap_no_use_after_free_stale2.
+Print Assumptions C13_wrap_accounting_stale2.
+Print Assumptions C13_wrap_load_linearizable_stale2.
+Print Assumptions C13_wrap_stale2_scope.
